@@ -103,7 +103,7 @@ def impl_to_spec(c, tier):
 def sessions(c, tier):
     """PacketSessions: the window is per SERVER session at the receiving client; every history of (server session, id)
     presentations TLC exports is replayed on the real client datagram codec with replies made by the real server codec."""
-    r = tlc("PacketSessions", "PacketSessions.cfg", workers=4, timeout=900)
+    r = tlc("PacketSessions", "PacketSessions.cfg" if tier == "quick" else "PacketSessions_t.cfg", workers=4 if tier == "quick" else 8, timeout=1800, heap="8g")
     c.tlc_stats(r)
     if not r.ok:
         c.violation("model: PacketSessions violates %s" % (r.violated or r.error), {"tail": r.out[-2000:]})
